@@ -7,24 +7,28 @@ Open Scope N_scope.
 Definition cfg0 : cfg := {| c_keepalive := 75; c_linger := 10 |}.
 Definition heads (n : nat) : list item := repeat (IHead false false) n.
 
+Definition refute_es1 : list ev := [EData [IHead false false]; EStart; EDone (OHttp 404)].
+Definition refute_es2 : list ev := [EData [IHead false false]].
+
 Lemma order_once_refuted :
   exists c s, Reach c s /\ closed s = false /\ pc s = PWait /\
               all_done (removelast (wire s)) = false /\ rids (wire s) = [0; 0].
 Proof.
-  exists cfg0. eexists. split; [eapply run_reach; [apply reach_init|]|].
-  - instantiate (1 := ltac:(let r := eval vm_compute in (run cfg0 init [EData [IHead false false]; EStart; EDone (OHttp 404)]) in
-                            match r with Some ?x => exact x end)). vm_compute. reflexivity.
-  - vm_compute. repeat split; reflexivity.
+  destruct (run cfg0 init refute_es1) as [s|] eqn:E; [|vm_compute in E; discriminate].
+  exists cfg0, s. split; [eapply run_reach; [apply reach_init|exact E]|].
+  vm_compute in E. inversion E; subst; clear E. vm_compute. repeat split; reflexivity.
 Qed.
 
 Lemma answered_or_closed_refuted :
   exists c s s', Reach c s /\ pc s = PHandler (QMsg {| m_id := 0; m_close := false; m_body := false |}) false /\
                  step c s (EDone OSwallow) = Some s' /\ closed s' = false /\ out s' = [] /\ pc s' = PWait.
 Proof.
-  exists cfg0. eexists. eexists. split; [eapply run_reach; [apply reach_init|]|].
-  - instantiate (1 := ltac:(let r := eval vm_compute in (run cfg0 init [EData [IHead false false]]) in
-                            match r with Some ?x => exact x end)). vm_compute. reflexivity.
-  - split; [vm_compute; reflexivity|]. split; [vm_compute; reflexivity|]. vm_compute. repeat split; reflexivity.
+  destruct (run cfg0 init refute_es2) as [s|] eqn:E; [|vm_compute in E; discriminate].
+  destruct (step cfg0 s (EDone OSwallow)) as [s'|] eqn:E2;
+    [|vm_compute in E; inversion E; subst; vm_compute in E2; discriminate].
+  exists cfg0, s, s'. split; [eapply run_reach; [apply reach_init|exact E]|].
+  vm_compute in E. inversion E; subst; clear E. split; [reflexivity|]. split; [exact E2|].
+  vm_compute in E2. inversion E2; subst; clear E2. vm_compute. repeat split; reflexivity.
 Qed.
 
 Lemma example_pipeline :
@@ -43,12 +47,15 @@ Lemma example_400 :
             closed s = true /\ List.map r_status (out s) = [200; 200; 400].
 Proof. eexists. split; [vm_compute; reflexivity|]. vm_compute. split; reflexivity. Qed.
 
+Definition benign_es : list ev := [EData (heads 4); EDone (ORet true 200); EStart; EDone OStreamed; EDone (OHttp 404); EStart; EDone OExc].
+
 Lemma example_benign :
   exists s, runb cfg0 init [EData (heads 4); EDone (ORet true 200); EStart; EDone OStreamed; EDone (OHttp 404); EStart; EDone OExc] = Some s /\
             ReachB cfg0 s /\ closed s = true /\
             List.map (fun r => (r_id r, r_status r, r_done r)) (wire s) = [(Some 0, 200, true); (Some 1, 200, true); (Some 2, 404, true); (Some 3, 200, false)].
 Proof.
-  eexists. split; [vm_compute; reflexivity|]. split; [|vm_compute; split; reflexivity].
-  eapply runb_reachb; [apply reachb_init|vm_compute; reflexivity].
+  change [EData (heads 4); EDone (ORet true 200); EStart; EDone OStreamed; EDone (OHttp 404); EStart; EDone OExc] with benign_es.
+  destruct (runb cfg0 init benign_es) as [s|] eqn:E; [|vm_compute in E; discriminate].
+  exists s. split; [reflexivity|]. split; [eapply runb_reachb; [apply reachb_init|exact E]|].
+  vm_compute in E. inversion E; subst; clear E. vm_compute. split; reflexivity.
 Qed.
-
